@@ -195,7 +195,11 @@ func c20Eval(r *hx.Run, cs c20Case) {
 			if cs.Files[p][i].Removed {
 				e.State = discovery.Removed
 			} else {
-				e.State = discovery.Noop
+				// every way of being present at HEAD (derived from the rule's place, so that a replay sees the same states):
+				// unchanged, added, modified, or unchanged in a file the branch renamed
+				// (seeded change C20-moved-entries-dropped)
+				e.State = []discovery.ChangeType{discovery.Noop, discovery.Added, discovery.Modified, discovery.Moved}[(len(p)+i+len(e.Rule.Name()))%4]
+				r.Count("present-state:" + e.State.String())
 			}
 			entries = append(entries, e)
 			origins = append(origins, origin{p, i})
